@@ -1193,7 +1193,7 @@ const COLORS: [RGBA; 16] = [
     RGBA::new(255, 255, 255, 255),
 ];
 
-fn sgr_color<'a>(mut cmds: impl Iterator<Item = &'a [u8]>) -> Option<RGBA> {
+fn sgr_color<'a>(mut cmds: impl Iterator<Item = &'a [u8]>, colon: bool) -> Option<RGBA> {
     match number_decode(cmds.next()?)? {
         5 => {
             // color from 256 color palette
@@ -1220,6 +1220,15 @@ fn sgr_color<'a>(mut cmds: impl Iterator<Item = &'a [u8]>) -> Option<RGBA> {
             //
             // It can contain either three or four components
             // in the case of four first component is ignored
+            if !colon {
+                // semicolon separated form has exactly three components, following
+                // parameters belong to the next attribute
+                let component = |value: Option<&'a [u8]>| u8::try_from(number_decode(value?)?).ok();
+                let r = component(cmds.next())?;
+                let g = component(cmds.next())?;
+                let b = component(cmds.next())?;
+                return Some(RGBA::new(r, g, b, 255));
+            }
             match [
                 cmds.next().and_then(number_decode),
                 cmds.next().and_then(number_decode),
@@ -1248,9 +1257,9 @@ fn sgr_face(data: &[u8]) -> FaceModify {
         let args_empty = args.size_hint().0 == 0;
         let mut sgr_color_thunk = || {
             if args_empty {
-                sgr_color(&mut groups)
+                sgr_color(&mut groups, false)
             } else {
-                sgr_color(&mut args)
+                sgr_color(&mut args, true)
             }
         };
         match cmd {
